@@ -1,0 +1,372 @@
+//go:build verif
+// +build verif
+
+package firmwaremanagement
+
+// Client lemmas for /verif (tool: gov), property C18; never called by library code.
+// Each lemma is verified with the real encoder / decoder bodies inlined: for EVERY value whose
+// fields lie within the bit widths of the package specification the encoder accepts it without
+// panicking, produces exactly Size() bytes, and the decoder returns an equal value.
+func verifAssert(cond bool, label string) {}
+func verifAssume(cond bool)               {}
+
+func lemmaC18_roundtrip_PackageVersionAnsPayload(v PackageVersionAnsPayload) {
+	b, err := v.MarshalBinary()
+	verifAssert(err == nil, "accepted")
+	if err != nil {
+		return
+	}
+	verifAssert(len(b) == v.Size(), "size")
+	var w PackageVersionAnsPayload
+	err2 := w.UnmarshalBinary(b)
+	verifAssert(err2 == nil, "decodes")
+	verifAssert(w == v, "equal")
+}
+
+func lemmaC18_roundtrip_DevVersionAnsPayload(v DevVersionAnsPayload) {
+	b, err := v.MarshalBinary()
+	verifAssert(err == nil, "accepted")
+	if err != nil {
+		return
+	}
+	verifAssert(len(b) == v.Size(), "size")
+	var w DevVersionAnsPayload
+	err2 := w.UnmarshalBinary(b)
+	verifAssert(err2 == nil, "decodes")
+	verifAssert(w == v, "equal")
+}
+
+func lemmaC18_roundtrip_DevRebootTimeReqPayload(v DevRebootTimeReqPayload) {
+	b, err := v.MarshalBinary()
+	verifAssert(err == nil, "accepted")
+	if err != nil {
+		return
+	}
+	verifAssert(len(b) == v.Size(), "size")
+	var w DevRebootTimeReqPayload
+	err2 := w.UnmarshalBinary(b)
+	verifAssert(err2 == nil, "decodes")
+	verifAssert(w == v, "equal")
+}
+
+func lemmaC18_roundtrip_DevRebootTimeAnsPayload(v DevRebootTimeAnsPayload) {
+	b, err := v.MarshalBinary()
+	verifAssert(err == nil, "accepted")
+	if err != nil {
+		return
+	}
+	verifAssert(len(b) == v.Size(), "size")
+	var w DevRebootTimeAnsPayload
+	err2 := w.UnmarshalBinary(b)
+	verifAssert(err2 == nil, "decodes")
+	verifAssert(w == v, "equal")
+}
+
+func lemmaC18_roundtrip_DevRebootCountdownReqPayload(v DevRebootCountdownReqPayload) {
+	verifAssume(v.Countdown < 1<<24)
+	b, err := v.MarshalBinary()
+	verifAssert(err == nil, "accepted")
+	if err != nil {
+		return
+	}
+	verifAssert(len(b) == v.Size(), "size")
+	var w DevRebootCountdownReqPayload
+	err2 := w.UnmarshalBinary(b)
+	verifAssert(err2 == nil, "decodes")
+	verifAssert(w == v, "equal")
+}
+
+func lemmaC18_roundtrip_DevRebootCountdownAnsPayload(v DevRebootCountdownAnsPayload) {
+	verifAssume(v.Countdown < 1<<24)
+	b, err := v.MarshalBinary()
+	verifAssert(err == nil, "accepted")
+	if err != nil {
+		return
+	}
+	verifAssert(len(b) == v.Size(), "size")
+	var w DevRebootCountdownAnsPayload
+	err2 := w.UnmarshalBinary(b)
+	verifAssert(err2 == nil, "decodes")
+	verifAssert(w == v, "equal")
+}
+
+func lemmaC18_roundtrip_DevDeleteImageReqPayload(v DevDeleteImageReqPayload) {
+	b, err := v.MarshalBinary()
+	verifAssert(err == nil, "accepted")
+	if err != nil {
+		return
+	}
+	verifAssert(len(b) == v.Size(), "size")
+	var w DevDeleteImageReqPayload
+	err2 := w.UnmarshalBinary(b)
+	verifAssert(err2 == nil, "decodes")
+	verifAssert(w == v, "equal")
+}
+
+func lemmaC18_roundtrip_DevDeleteImageAnsPayload(v DevDeleteImageAnsPayload) {
+	verifAssume(v.Status.ErrorInvalidVersion <= 1 && v.Status.ErrorNoValidImage <= 1)
+	b, err := v.MarshalBinary()
+	verifAssert(err == nil, "accepted")
+	if err != nil {
+		return
+	}
+	verifAssert(len(b) == v.Size(), "size")
+	var w DevDeleteImageAnsPayload
+	err2 := w.UnmarshalBinary(b)
+	verifAssert(err2 == nil, "decodes")
+	verifAssert(w == v, "equal")
+}
+
+// DevUpgradeImageAns: the next firmware version is present exactly when UpImageStatus == FirmwareValid
+func lemmaC18_roundtrip_DevUpgradeImageAnsPayload(v DevUpgradeImageAnsPayload) {
+	valid := v.Status.UpImageStatus == FirmwareValid
+	verifAssume(v.Status.UpImageStatus <= 3)
+	verifAssume((valid && v.nextFirmwareVersion != nil) || (!valid && v.nextFirmwareVersion == nil))
+	b, err := v.MarshalBinary()
+	verifAssert(err == nil, "accepted")
+	if err != nil {
+		return
+	}
+	verifAssert(len(b) == v.Size(), "size")
+	var w DevUpgradeImageAnsPayload
+	err2 := w.UnmarshalBinary(b)
+	verifAssert(err2 == nil, "decodes")
+	verifAssert(w.Status == v.Status, "equal-status")
+	verifAssert((w.nextFirmwareVersion == nil) == (v.nextFirmwareVersion == nil), "equal-presence")
+	if w.nextFirmwareVersion != nil && v.nextFirmwareVersion != nil {
+		verifAssert(*w.nextFirmwareVersion == *v.nextFirmwareVersion, "equal-version")
+	}
+}
+
+// any well-formed-or-not value: the encoder returns bytes or an error, it never panics
+func lemmaC18_nopanic_DevUpgradeImageAnsPayload(v DevUpgradeImageAnsPayload) {
+	_, _ = v.MarshalBinary()
+}
+
+// ---------------------------------------------------------------------------
+// Command streams (bounded: sequences of length 2): a command carrying a payload followed by a
+// command without payload in that direction decodes to exactly these two commands.
+// ---------------------------------------------------------------------------
+
+func lemmaC18_stream_PackageVersionAnsPayload(v PackageVersionAnsPayload) {
+	cmds := Commands{{CID: PackageVersionAns, Payload: &v}, {CID: CID(0x7f)}}
+	b, err := cmds.MarshalBinary()
+	verifAssert(err == nil, "accepted")
+	if err != nil {
+		return
+	}
+	var out Commands
+	err2 := out.UnmarshalBinary(true, b)
+	verifAssert(err2 == nil, "decodes")
+	if err2 != nil {
+		return
+	}
+	verifAssert(len(out) == 2, "count")
+	if len(out) != 2 {
+		return
+	}
+	verifAssert(out[0].CID == PackageVersionAns && out[1].CID == CID(0x7f) && out[1].Payload == nil, "framing")
+	w, ok := out[0].Payload.(*PackageVersionAnsPayload)
+	verifAssert(ok && *w == v, "first")
+}
+
+func lemmaC18_stream_DevVersionReqPayload(v DevVersionReqPayload) {
+	cmds := Commands{{CID: DevVersionReq, Payload: &v}, {CID: PackageVersionReq}}
+	b, err := cmds.MarshalBinary()
+	verifAssert(err == nil, "accepted")
+	if err != nil {
+		return
+	}
+	var out Commands
+	err2 := out.UnmarshalBinary(false, b)
+	verifAssert(err2 == nil, "decodes")
+	if err2 != nil {
+		return
+	}
+	verifAssert(len(out) == 2, "count")
+	if len(out) != 2 {
+		return
+	}
+	verifAssert(out[0].CID == DevVersionReq && out[1].CID == PackageVersionReq && out[1].Payload == nil, "framing")
+	w, ok := out[0].Payload.(*DevVersionReqPayload)
+	verifAssert(ok && *w == v, "first")
+}
+
+func lemmaC18_stream_DevVersionAnsPayload(v DevVersionAnsPayload) {
+	cmds := Commands{{CID: DevVersionAns, Payload: &v}, {CID: CID(0x7f)}}
+	b, err := cmds.MarshalBinary()
+	verifAssert(err == nil, "accepted")
+	if err != nil {
+		return
+	}
+	var out Commands
+	err2 := out.UnmarshalBinary(true, b)
+	verifAssert(err2 == nil, "decodes")
+	if err2 != nil {
+		return
+	}
+	verifAssert(len(out) == 2, "count")
+	if len(out) != 2 {
+		return
+	}
+	verifAssert(out[0].CID == DevVersionAns && out[1].CID == CID(0x7f) && out[1].Payload == nil, "framing")
+	w, ok := out[0].Payload.(*DevVersionAnsPayload)
+	verifAssert(ok && *w == v, "first")
+}
+
+func lemmaC18_stream_DevRebootTimeReqPayload(v DevRebootTimeReqPayload) {
+	cmds := Commands{{CID: DevRebootTimeReq, Payload: &v}, {CID: PackageVersionReq}}
+	b, err := cmds.MarshalBinary()
+	verifAssert(err == nil, "accepted")
+	if err != nil {
+		return
+	}
+	var out Commands
+	err2 := out.UnmarshalBinary(false, b)
+	verifAssert(err2 == nil, "decodes")
+	if err2 != nil {
+		return
+	}
+	verifAssert(len(out) == 2, "count")
+	if len(out) != 2 {
+		return
+	}
+	verifAssert(out[0].CID == DevRebootTimeReq && out[1].CID == PackageVersionReq && out[1].Payload == nil, "framing")
+	w, ok := out[0].Payload.(*DevRebootTimeReqPayload)
+	verifAssert(ok && *w == v, "first")
+}
+
+func lemmaC18_stream_DevRebootTimeAnsPayload(v DevRebootTimeAnsPayload) {
+	cmds := Commands{{CID: DevRebootTimeAns, Payload: &v}, {CID: CID(0x7f)}}
+	b, err := cmds.MarshalBinary()
+	verifAssert(err == nil, "accepted")
+	if err != nil {
+		return
+	}
+	var out Commands
+	err2 := out.UnmarshalBinary(true, b)
+	verifAssert(err2 == nil, "decodes")
+	if err2 != nil {
+		return
+	}
+	verifAssert(len(out) == 2, "count")
+	if len(out) != 2 {
+		return
+	}
+	verifAssert(out[0].CID == DevRebootTimeAns && out[1].CID == CID(0x7f) && out[1].Payload == nil, "framing")
+	w, ok := out[0].Payload.(*DevRebootTimeAnsPayload)
+	verifAssert(ok && *w == v, "first")
+}
+
+func lemmaC18_stream_DevRebootCountdownReqPayload(v DevRebootCountdownReqPayload) {
+	verifAssume(v.Countdown < 1<<24)
+	cmds := Commands{{CID: DevRebootCountdownReq, Payload: &v}, {CID: PackageVersionReq}}
+	b, err := cmds.MarshalBinary()
+	verifAssert(err == nil, "accepted")
+	if err != nil {
+		return
+	}
+	var out Commands
+	err2 := out.UnmarshalBinary(false, b)
+	verifAssert(err2 == nil, "decodes")
+	if err2 != nil {
+		return
+	}
+	verifAssert(len(out) == 2, "count")
+	if len(out) != 2 {
+		return
+	}
+	verifAssert(out[0].CID == DevRebootCountdownReq && out[1].CID == PackageVersionReq && out[1].Payload == nil, "framing")
+	w, ok := out[0].Payload.(*DevRebootCountdownReqPayload)
+	verifAssert(ok && *w == v, "first")
+}
+
+func lemmaC18_stream_DevRebootCountdownAnsPayload(v DevRebootCountdownAnsPayload) {
+	verifAssume(v.Countdown < 1<<24)
+	cmds := Commands{{CID: DevRebootCountdownAns, Payload: &v}, {CID: CID(0x7f)}}
+	b, err := cmds.MarshalBinary()
+	verifAssert(err == nil, "accepted")
+	if err != nil {
+		return
+	}
+	var out Commands
+	err2 := out.UnmarshalBinary(true, b)
+	verifAssert(err2 == nil, "decodes")
+	if err2 != nil {
+		return
+	}
+	verifAssert(len(out) == 2, "count")
+	if len(out) != 2 {
+		return
+	}
+	verifAssert(out[0].CID == DevRebootCountdownAns && out[1].CID == CID(0x7f) && out[1].Payload == nil, "framing")
+	w, ok := out[0].Payload.(*DevRebootCountdownAnsPayload)
+	verifAssert(ok && *w == v, "first")
+}
+
+func lemmaC18_stream_DevUpgradeImageReqPayload(v DevUpgradeImageReqPayload) {
+	cmds := Commands{{CID: DevUpgradeImageReq, Payload: &v}, {CID: PackageVersionReq}}
+	b, err := cmds.MarshalBinary()
+	verifAssert(err == nil, "accepted")
+	if err != nil {
+		return
+	}
+	var out Commands
+	err2 := out.UnmarshalBinary(false, b)
+	verifAssert(err2 == nil, "decodes")
+	if err2 != nil {
+		return
+	}
+	verifAssert(len(out) == 2, "count")
+	if len(out) != 2 {
+		return
+	}
+	verifAssert(out[0].CID == DevUpgradeImageReq && out[1].CID == PackageVersionReq && out[1].Payload == nil, "framing")
+	w, ok := out[0].Payload.(*DevUpgradeImageReqPayload)
+	verifAssert(ok && *w == v, "first")
+}
+
+func lemmaC18_stream_DevDeleteImageReqPayload(v DevDeleteImageReqPayload) {
+	cmds := Commands{{CID: DevDeleteImageReq, Payload: &v}, {CID: PackageVersionReq}}
+	b, err := cmds.MarshalBinary()
+	verifAssert(err == nil, "accepted")
+	if err != nil {
+		return
+	}
+	var out Commands
+	err2 := out.UnmarshalBinary(false, b)
+	verifAssert(err2 == nil, "decodes")
+	if err2 != nil {
+		return
+	}
+	verifAssert(len(out) == 2, "count")
+	if len(out) != 2 {
+		return
+	}
+	verifAssert(out[0].CID == DevDeleteImageReq && out[1].CID == PackageVersionReq && out[1].Payload == nil, "framing")
+	w, ok := out[0].Payload.(*DevDeleteImageReqPayload)
+	verifAssert(ok && *w == v, "first")
+}
+
+func lemmaC18_stream_DevDeleteImageAnsPayload(v DevDeleteImageAnsPayload) {
+	verifAssume(v.Status.ErrorInvalidVersion <= 1 && v.Status.ErrorNoValidImage <= 1)
+	cmds := Commands{{CID: DevDeleteImageAns, Payload: &v}, {CID: CID(0x7f)}}
+	b, err := cmds.MarshalBinary()
+	verifAssert(err == nil, "accepted")
+	if err != nil {
+		return
+	}
+	var out Commands
+	err2 := out.UnmarshalBinary(true, b)
+	verifAssert(err2 == nil, "decodes")
+	if err2 != nil {
+		return
+	}
+	verifAssert(len(out) == 2, "count")
+	if len(out) != 2 {
+		return
+	}
+	verifAssert(out[0].CID == DevDeleteImageAns && out[1].CID == CID(0x7f) && out[1].Payload == nil, "framing")
+	w, ok := out[0].Payload.(*DevDeleteImageAnsPayload)
+	verifAssert(ok && *w == v, "first")
+}
